@@ -9,6 +9,9 @@ let pair_of s = match String.split_on_char ',' s with
   | _ -> fail "bad pair %s" s
 let str_pair u = hex_of_n u.upper ^ "," ^ hex_of_n u.lower
 
+(* k < 2^128 *)
+let hex_len_le32 (k : n) = String.length (hex_of_n k) <= 32
+
 let check inp obs =
   let f = split_ws inp in
   match f with
@@ -19,10 +22,11 @@ let check inp obs =
       hex_of_bytes (to_string u); hex_of_bytes (marshal_json u);
       hex_of_bytes (bytes LE u); hex_of_bytes (bytes BE u);
       str_pair (of_big v); str_pair (of_bytes LE (bytes LE u));
-      (match unmarshal_json (marshal_json u) with Some w -> str_pair w | None -> "err") ] in
+      (match unmarshal_json (marshal_json u) with Some w -> str_pair w | None -> "err");
+      str_pair (of_bytes BE (bytes BE u)) ] in
     (* property predicate on the implementation's own observables *)
     let prop, why = (match split_ws obs with
-      | [s; js; le; be; big; fle; jr] ->
+      | [s; js; le; be; big; fle; jr; fbe] ->
         let checks = [
           ("String", parse_decimal (bytes_of_hex s) = Some v && bytes_of_hex s = decimal v);
           ("JSON", bytes_of_hex js = decimal v);
@@ -30,6 +34,7 @@ let check inp obs =
           ("BytesBE", be_val (bytes_of_hex be) = v);
           ("FromBig", big = str_pair u);
           ("FromLE", fle = str_pair u);
+          ("FromBE", fbe = str_pair u);
           ("JSONRoundTrip", jr = str_pair u) ] in
         let bad = List.filter (fun (_, b) -> not b) checks in
         (bad = [], String.concat "," (List.map fst bad))
@@ -39,16 +44,39 @@ let check inp obs =
       tags = "views" ^ (if u.upper <> N0 then ",upper-nonzero" else ",upper-zero");
       detail = (if prop && model = obs then "" else Printf.sprintf "views-differ[%s] model=%s" why model) }
   | ["frombytes"; o; hx] ->
+    (* property predicate (C13_from_bytes) on the implementation's pair: for at most 16 bytes the
+       constructed value denotes the number the bytes denote in that order *)
     let o' = if o = "BE" then BE else LE in
-    let m = str_pair (of_bytes o' (bytes_of_hex hx)) in
-    { (ok ~tags:("frombytes-" ^ o) ()) with model_eq = (m = obs); detail = if m = obs then "" else "model=" ^ m }
+    let b = bytes_of_hex hx in
+    let m = str_pair (of_bytes o' b) in
+    let short = List.length b <= 16 in
+    let prop = (not short) || (obs <> "err" &&
+      (let w = pair_of obs in wf w && value w = (match o' with LE -> le_val b | BE -> be_val b))) in
+    { prop_ok = prop; model_eq = (m = obs); nontrivial = (b <> []); finding = "-";
+      tags = "frombytes-" ^ o ^ (if short then "" else ",frombytes-over16");
+      detail = if prop && m = obs then "" else "model=" ^ m }
   | ["frombig"; hx] ->
-    let m = str_pair (of_big (n_of_hex hx)) in
-    { (ok ~tags:"frombig" ()) with model_eq = (m = obs); detail = if m = obs then "" else "model=" ^ m }
+    let k = n_of_hex hx in
+    let m = str_pair (of_big k) in
+    let small = hex_len_le32 k in
+    let prop = (not small) || (obs <> "err" && (let w = pair_of obs in wf w && value w = k)) in
+    { prop_ok = prop; model_eq = (m = obs); nontrivial = (k <> N0); finding = "-";
+      tags = (if small then "frombig" else "frombig-over128");
+      detail = if prop && m = obs then "" else "model=" ^ m }
   | ["unjson"; hx] ->
-    let m = (match unmarshal_json (bytes_of_hex hx) with Some w -> str_pair w | None -> "err") in
-    { (ok ~tags:("unjson-" ^ (if m = "err" then "err" else "ok")) ()) with
-      model_eq = (m = obs); detail = if m = obs then "" else "model=" ^ m }
+    let txt = bytes_of_hex hx in
+    let m = (match unmarshal_json txt with Some w -> str_pair w | None -> "err") in
+    (* property predicate (C13_json_decode) on the implementation's pair: the JSON form of a
+       128-bit value, i.e. the canonical decimal numeral of a number below 2^128, decodes to it *)
+    let canonical = (match parse_decimal txt with
+        | Some k -> if decimal k = txt && hex_len_le32 k then Some k else None
+        | None -> None) in
+    let prop = (match canonical with
+        | Some k -> obs <> "err" && (let w = pair_of obs in wf w && value w = k)
+        | None -> true) in
+    { prop_ok = prop; model_eq = (m = obs); nontrivial = true; finding = "-";
+      tags = "unjson-" ^ (if m = "err" then "err" else "ok") ^ (if canonical <> None then ",unjson-canonical" else "");
+      detail = if prop && m = obs then "" else "model=" ^ m }
   | ["cmp"; a; b; c; d] ->
     let u = { upper = n_of_hex a; lower = n_of_hex b } and w = { upper = n_of_hex c; lower = n_of_hex d } in
     let m = (match compare0 u w with Eq -> "0" | Lt -> "-1" | Gt -> "1") in
@@ -60,10 +88,18 @@ let check inp obs =
    implementation's observables *)
 let coq inp obs =
   match split_ws inp, split_ws obs with
-  | ["views"; up; lo], [s; js; le; be; _; _; _] ->
+  | ["views"; up; lo], [s; js; le; be; _; _; _; _] ->
     Some (Printf.sprintf "let u := mk128 %s %s in bytes_eqb (to_string u) %s && bytes_eqb (marshal_json u) %s && bytes_eqb (bytes LE u) %s && bytes_eqb (bytes BE u) %s"
       (coq_n (n_of_hex up)) (coq_n (n_of_hex lo))
       (coq_bytes (bytes_of_hex s)) (coq_bytes (bytes_of_hex js)) (coq_bytes (bytes_of_hex le)) (coq_bytes (bytes_of_hex be)))
+  | ["frombytes"; o; hx], [_] when obs <> "err" ->
+    let w = pair_of obs in
+    Some (Printf.sprintf "let w := of_bytes %s %s in N.eqb (upper w) %s && N.eqb (lower w) %s"
+      (if o = "BE" then "BE" else "LE") (coq_bytes (bytes_of_hex hx)) (coq_n w.upper) (coq_n w.lower))
+  | ["frombig"; hx], [_] when obs <> "err" ->
+    let w = pair_of obs in
+    Some (Printf.sprintf "let w := of_big %s in N.eqb (upper w) %s && N.eqb (lower w) %s"
+      (coq_n (n_of_hex hx)) (coq_n w.upper) (coq_n w.lower))
   | _ -> None
 
 let () = run_driver ~coq check
